@@ -79,6 +79,12 @@ def requests(cfg, rng, n, tier, part, nparts, st):
                 yield 'sl', (bytes(L - 1) + bytes([0x80]),)
                 yield 'sl', (bytes([0xff]) * (L - 1) + bytes([0x7f]),)
                 yield 'sl', (bytes([0x7f]) + bytes([0xff]) * (L - 1),)
+    if cfg.bits <= 16 and part == 0:
+        import itertools
+        for L in range(0, 6):
+            for t in itertools.product((0x00, 0x01, 0x7f, 0x80, 0xff), repeat=L):
+                yield 'sl', (bytes(t),)
+        st['exhaustive'].append('%s: every byte string of length <= 5 over {00, 01, 7f, 80, ff}' % cfg.name)
     for k in range(n):
         if k % 4 == 3:
             yield 'en', (gen.value(cfg, rng),)
